@@ -17,6 +17,9 @@ fn main() {
     }
     install_quiet_panic_hook();
     match args[1].as_str() {
+        "probe" => {
+            std::process::exit(props::probe(&args[2..]));
+        }
         "list" => {
             for p in props::ALL {
                 println!("{p}");
